@@ -248,7 +248,8 @@ def control_send_bound(R, g, rd, n, call):
     best = INF
     # (1) bound on len(<the very name sent>)
     if isinstance(data, ast.Name):
-        hi = _upper_bound(R, g, n, 'len(%s)' % data.id)
+        from .common import len_texts
+        hi = _upper_bound(R, g, n, len_texts(R, g, n, data))
         # the guard must concern the same definition that is sent
         best = min(best, hi)
     # (2) payload built by build_close_payload(code, reason): 2 + len(reason) when reason is bytes
